@@ -232,17 +232,19 @@ def reqInserted (rewrittenHost origAuthority : Option Bytes) (edits : List ReqEd
    | none => []) ++
   (edits.filter (!·.val.isEmpty)).map fun e => Field.hdr e.key e.val
 
+/-- the `retain` predicate of the delete pass: a block stays unless its lower-cased name is in the drop set -/
+def reqKeep (drop : List Bytes) (f : Field) : Bool :=
+  match fieldKeyLower f with
+  | some k => !drop.contains k
+  | none => true
+
 /-- `apply_request_rewrites_and_headers` on the header blocks: every block whose
     lower-cased name is in the drop set is removed (`retain`), then the
     insertions land at the end of the header section -/
 def routerPass (rewrittenHost origAuthority rewrittenPath : Option Bytes) (edits : List ReqEdit)
     (fs : List Field) : List Field :=
   if rewrittenHost.isNone && rewrittenPath.isNone && edits.isEmpty then fs else
-  let drop := reqDropKeys rewrittenHost.isSome edits
-  (fs.filter fun f =>
-    match fieldKeyLower f with
-    | some k => !drop.contains k
-    | none => true) ++ reqInserted rewrittenHost origAuthority edits
+  fs.filter (reqKeep (reqDropKeys rewrittenHost.isSome edits)) ++ reqInserted rewrittenHost origAuthority edits
 
 /-- the whole request as the router leaves it (status line rewritten too) -/
 def routeReq (rewrittenHost origAuthority rewrittenPath : Option Bytes) (edits : List ReqEdit) (r : Req) : Req :=
